@@ -80,7 +80,10 @@ def cmd_check(prop, tier, seed):
     if tot["errors"]:
         print(f"HARNESS-ERROR: {len(tot['errors'])} run(s) raised inside the machinery; first:\n"
               f"{tot['errors'][0]}", file=sys.stderr)
-        return 2
+        if rc != 1:
+            return 2
+        # violations were found and written as replay files (each re-runs in a fresh process): they stand
+        print("NOTE: the violations above stand; the runs that raised inside the machinery were not judged")
     if tot["det_mismatch"]:
         # the same scenario gave two different event logs in one process.  With violations on the table the
         # likeliest cause is state the code under test keeps across runs (class-level or module-level data):
